@@ -33,7 +33,7 @@ func libraryPkgs(p *load.Prog) []*packages.Package {
 }
 
 func checkC14(c *core.Ctx) {
-	c.Explainf("C14 (decided clauses: the structural ways this code could be impure or order-dependent; absence of data races as such is a dynamic notion and NOT decided). R1: every `range` over a map in the non-test code of the three library packages is enumerated and its body classified — insertion into a map/set, deletion, raising a flag and `continue` are order-independent; an `append` is accepted only if the slice is sorted afterwards in the same function; a `return`/`break` that carries a value derived from the iteration variables, or an emit, makes the result depend on map iteration order. R2: no function of the library packages assigns to, deletes from, or updates through an alias a package-level variable (the type tables are read-only). R2c: no package-level variable holds a struct of the package whose pointer-receiver methods, reachable from the exported API, assign to receiver fields (a lazily filled cache on a shared value). R3: Generate, which receives File by value, never appends to a slice of its receiver without first clipping its capacity (otherwise it writes into the caller's backing array — the race the property describes). R3b: no function with a by-value File/record writes through a local alias of one of its exported slices — append onto a re-slice (the in-place filter `x := f.Consts[:0]`), element store, in-place sort, copy into — (positive control: fixtures/aliaswrite). R3d: outside the parser no assignment's target is reached through a pointer-typed field of a schema type (UnionField.Struct / .Message): a by-value File still points at the caller's branch records. R4: every pointer- or map-typed scratch field of GenerateSettings is given a fresh value in File.Generate before the first record is generated. R5: the generator is folded twice by the evaluator over the first two batches of the exploration, visiting map keys in ascending and in descending order; the emitted text must be identical.")
+	c.Explainf("C14 (decided clauses: the structural ways this code could be impure or order-dependent; absence of data races as such is a dynamic notion and R2d: no function returns, stores in per-call state or hands to another function a value that carries a slice and was read out of a package-level variable (a table of ready-made tokens): every call would share one backing array (positive control: fixtures/sharedslice). NOT decided). R1: every `range` over a map in the non-test code of the three library packages is enumerated and its body classified — insertion into a map/set, deletion, raising a flag and `continue` are order-independent; an `append` is accepted only if the slice is sorted afterwards in the same function; a `return`/`break` that carries a value derived from the iteration variables, or an emit, makes the result depend on map iteration order. R2: no function of the library packages assigns to, deletes from, or updates through an alias a package-level variable (the type tables are read-only). R2c: no package-level variable holds a struct of the package whose pointer-receiver methods, reachable from the exported API, assign to receiver fields (a lazily filled cache on a shared value). R3: Generate, which receives File by value, never appends to a slice of its receiver without first clipping its capacity (otherwise it writes into the caller's backing array — the race the property describes). R3b: no function with a by-value File/record writes through a local alias of one of its exported slices — append onto a re-slice (the in-place filter `x := f.Consts[:0]`), element store, in-place sort, copy into — (positive control: fixtures/aliaswrite). R3d: outside the parser no assignment's target is reached through a pointer-typed field of a schema type (UnionField.Struct / .Message): a by-value File still points at the caller's branch records. R4: every pointer- or map-typed scratch field of GenerateSettings is given a fresh value in File.Generate before the first record is generated. R5: the generator is folded twice by the evaluator over the first two batches of the exploration, visiting map keys in ascending and in descending order; the emitted text must be identical.")
 	p := loadRepo(c)
 	if p == nil {
 		return
@@ -41,6 +41,7 @@ func checkC14(c *core.Ctx) {
 	mapOrderFold(c, p)
 	pointerFieldWrites(c, p)
 	sharedMutableGlobals(c, p)
+	sharedSlicesStayHome(c, p)
 	nRanges := 0
 	sortsParam = makeSortsParam(p)
 	resultOnlyFoldedIntoSets = makeResultOnlyFoldedIntoSets(p)
@@ -1427,4 +1428,212 @@ func pointerFieldWrites(c *core.Ctx, p *load.Prog) {
 	c.Count("functions_scanned_for_pointer_field_writes", n)
 	c.Floor("functions_scanned_for_pointer_field_writes", 40)
 	_ = sites
+}
+
+// holdsSlice: a value of this type carries a slice header (so copying the
+// value shares the backing array): a slice, or a struct/array with such a
+// component. Maps and pointers are handled by R2/R2c.
+func holdsSlice(t types.Type, depth int) bool {
+	if t == nil || depth > 4 {
+		return false
+	}
+	switch u := t.Underlying().(type) {
+	case *types.Slice:
+		return true
+	case *types.Struct:
+		for i := 0; i < u.NumFields(); i++ {
+			if holdsSlice(u.Field(i).Type(), depth+1) {
+				return true
+			}
+		}
+	case *types.Array:
+		return holdsSlice(u.Elem(), depth+1)
+	}
+	return false
+}
+
+// scanSharedSlices: R2d. A value that carries a slice and lives in
+// package-level storage (a table of ready-made tokens, say) shares its backing
+// array with every copy handed out. Code that only looks at it is fine; a
+// function that *returns* such a value, stores it in per-call state or hands
+// it to another function gives every caller the same array — what one call
+// appends onto or writes through, another call sees (and concurrent calls
+// race). Reported: a slice-carrying value read out of a package-level variable
+// that reaches a return, a store into a field or element, or a call argument
+// (other than len/cap/copy source/append spread/conversion), directly or
+// through one local.
+func scanSharedSlices(info *types.Info, tpkg *types.Package, files []*ast.File, report func(fn string, v types.Object, how string, pos token.Pos)) (nVars int) {
+	globals := map[types.Object]bool{}
+	scope := tpkg.Scope()
+	for _, nm := range scope.Names() {
+		v, ok := scope.Lookup(nm).(*types.Var)
+		if !ok {
+			continue
+		}
+		t := v.Type()
+		carries := holdsSlice(t, 0)
+		switch u := t.Underlying().(type) {
+		case *types.Map:
+			carries = holdsSlice(u.Elem(), 0)
+		case *types.Pointer:
+			carries = holdsSlice(u.Elem(), 0)
+		}
+		if carries {
+			globals[v] = true
+			nVars++
+		}
+	}
+	if len(globals) == 0 {
+		return 0
+	}
+	for _, f := range files {
+		for _, d := range f.Decls {
+			fd, ok := d.(*ast.FuncDecl)
+			if !ok || fd.Body == nil {
+				continue
+			}
+			// root global of an expression that reads out of package-level storage
+			var rootOf func(e ast.Expr) types.Object
+			tainted := map[types.Object]types.Object{}
+			rootOf = func(e ast.Expr) types.Object {
+				switch x := ast.Unparen(e).(type) {
+				case *ast.Ident:
+					o := info.ObjectOf(x)
+					if globals[o] {
+						return o
+					}
+					if g, ok := tainted[o]; ok {
+						return g
+					}
+				case *ast.IndexExpr:
+					return rootOf(x.X)
+				case *ast.SelectorExpr:
+					return rootOf(x.X)
+				case *ast.StarExpr:
+					return rootOf(x.X)
+				case *ast.SliceExpr:
+					return rootOf(x.X)
+				}
+				return nil
+			}
+			carriesOut := func(e ast.Expr) types.Object {
+				t := info.TypeOf(e)
+				if tup, ok := t.(*types.Tuple); ok && tup.Len() > 0 {
+					t = tup.At(0).Type() // v, ok := m[k]
+				}
+				if t == nil || !holdsSlice(t, 0) {
+					return nil
+				}
+				return rootOf(e)
+			}
+			// locals that receive such a value (two rounds are enough for x := g[k]; y := x)
+			for round := 0; round < 2; round++ {
+				ast.Inspect(fd.Body, func(n ast.Node) bool {
+					switch x := n.(type) {
+					case *ast.AssignStmt:
+						if len(x.Rhs) == 1 && len(x.Lhs) >= 1 {
+							if g := carriesOut(x.Rhs[0]); g != nil {
+								if id, ok := ast.Unparen(x.Lhs[0]).(*ast.Ident); ok && id.Name != "_" {
+									if o := info.ObjectOf(id); o != nil && !globals[o] {
+										tainted[o] = g
+									}
+								}
+							}
+						}
+					case *ast.RangeStmt:
+						if g := rootOf(x.X); g != nil && x.Value != nil {
+							if id, ok := x.Value.(*ast.Ident); ok && holdsSlice(info.TypeOf(id), 0) {
+								tainted[info.ObjectOf(id)] = g
+							}
+						}
+					}
+					return true
+				})
+			}
+			ast.Inspect(fd.Body, func(n ast.Node) bool {
+				switch x := n.(type) {
+				case *ast.ReturnStmt:
+					for _, r := range x.Results {
+						if g := carriesOut(r); g != nil {
+							report(fd.Name.Name, g, "returns "+wire.Canon(r), r.Pos())
+						}
+					}
+				case *ast.AssignStmt:
+					for i, r := range x.Rhs {
+						if i >= len(x.Lhs) {
+							break
+						}
+						g := carriesOut(r)
+						if g == nil {
+							continue
+						}
+						switch l := ast.Unparen(x.Lhs[i]).(type) {
+						case *ast.SelectorExpr, *ast.IndexExpr, *ast.StarExpr:
+							if rootOf(l) == nil {
+								report(fd.Name.Name, g, "stores "+wire.Canon(r)+" in "+wire.Canon(l), r.Pos())
+							}
+						}
+					}
+				case *ast.CallExpr:
+					fn := wire.Canon(x.Fun)
+					if info.Types[x.Fun].IsType() || fn == "len" || fn == "cap" {
+						return true
+					}
+					for i, a := range x.Args {
+						g := carriesOut(a)
+						if g == nil {
+							continue
+						}
+						if fn == "copy" && i == 1 {
+							continue
+						}
+						if fn == "append" && i == len(x.Args)-1 && x.Ellipsis.IsValid() && i > 0 {
+							continue
+						}
+						report(fd.Name.Name, g, "hands "+wire.Canon(a)+" to "+fn, a.Pos())
+					}
+				}
+				return true
+			})
+		}
+	}
+	return nVars
+}
+
+func sharedSlicesStayHome(c *core.Ctx, p *load.Prog) {
+	for _, pkg := range []*packages.Package{p.Bebop(), p.Iohelp()} {
+		if pkg == nil {
+			continue
+		}
+		n := scanSharedSlices(pkg.TypesInfo, pkg.Types, pkg.Syntax, func(fn string, v types.Object, how string, pos token.Pos) {
+			c.Check("R2d", fn+" does not hand out a slice kept in the package-level "+v.Name(), p.Pos(pos), false,
+				fn+" "+how+", a value that carries a slice whose backing array lives in the package-level variable "+v.Name()+": every call gets the same array, so what one caller appends onto or writes through shows up in the results of the others, and concurrent calls race")
+		})
+		c.Count("package_level_values_carrying_slices", n)
+	}
+	c.Check("R2d", "no slice kept in package-level storage is handed out (scan complete)", "package bebop, iohelp", true, "")
+	f, info, err := typeCheckFixture(c, "sharedslice")
+	if err != nil {
+		c.Undecide("positive control fixture sharedslice: %v", err)
+		return
+	}
+	tpkg := info.Defs[f.Name]
+	_ = tpkg
+	var fpkg *types.Package
+	for _, o := range info.Defs {
+		if o != nil && o.Pkg() != nil {
+			fpkg = o.Pkg()
+			break
+		}
+	}
+	hits := map[string]bool{}
+	if fpkg != nil {
+		scanSharedSlices(info, fpkg, []*ast.File{f}, func(fn string, v types.Object, how string, pos token.Pos) { hits[fn] = true })
+	}
+	for _, want := range []string{"lookup", "viaLocal", "intoState"} {
+		c.Check("R2d", "positive control: "+want+" is recognised", "fixtures/sharedslice/fx.go", hits[want], "the rule no longer matches the shape it is meant to find")
+	}
+	for _, not := range []string{"kindOf", "cloned", "measured"} {
+		c.Check("R2d", "positive control: "+not+" is not reported", "fixtures/sharedslice/fx.go", !hits[not], "")
+	}
 }
